@@ -33,7 +33,7 @@ pub struct MvPoly { pub num_vars: usize, pub terms: Vec<(Fr, Term)> }
 impl MvPoly {
     #[verifier::external_body] pub fn terms(&self) -> (r: &Vec<(Fr, Term)>) ensures r@ == self.terms@ { unimplemented!() }
     #[verifier::external_body] pub fn degree(&self) -> (r: usize) ensures r == self.deg() { unimplemented!() }
-    #[verifier::external_body] pub fn zero() -> (r: MvPoly) ensures r.terms@.len() == 0 { unimplemented!() }
+    #[verifier::external_body] pub fn zero() -> (r: MvPoly) ensures r.terms@.len() == 0, r.num_vars == 0 { unimplemented!() }
     pub uninterp spec fn deg(&self) -> usize;
 }
 pub struct LabeledMv { pub label: String, pub polynomial: MvPoly, pub hiding_bound: Option<usize> }
@@ -55,7 +55,7 @@ pub open spec fn blinding_ok(p: &MvPoly, num_vars: nat, d: nat) -> bool {
         && (p.terms@[i].1.v@.len() == 1 ==> p.terms@[i].1.v@[0].0 < num_vars && 1 <= p.terms@[i].1.v@[0].1 <= d)
 }
 impl Randomness {
-    #[verifier::external_body] pub fn empty() -> (r: Randomness) ensures r.blinding_polynomial.terms@.len() == 0 { unimplemented!() }
+    #[verifier::external_body] pub fn empty() -> (r: Randomness) ensures r.blinding_polynomial.terms@.len() == 0, r.blinding_polynomial.num_vars == 0 { unimplemented!() }
     // Randomness::rand(h, _, Some(num_vars), rng) = SparsePolynomial::rand(h + 1, num_vars, rng): coefficients from the caller's stream
     #[verifier::external_body] pub fn rand(hiding_bound: usize, _b: bool, num_vars: Option<usize>, rng: &mut Rng) -> (r: Randomness)
         ensures num_vars is Some, old(rng).present@, blinding_ok(&r.blinding_polynomial, num_vars->Some_0 as nat, (hiding_bound + 1) as nat),
@@ -63,6 +63,7 @@ impl Randomness {
             forall|i: int| 0 <= i < r.blinding_polynomial.terms@.len() ==> (#[trigger] r.blinding_polynomial.terms@[i]).0@ == draw(old(rng).id@, old(rng).pos@ + i as nat) { unimplemented!() }
 }
 
+//@spec mvpoly_spec
 // ======================= specification =======================
 pub open spec fn coeffs_of(ts: Seq<(Fr, Term)>) -> Seq<FS> { Seq::new(ts.len(), |i: int| ts[i].0@) }
 pub open spec fn keys_of(t: &TermTable, ts: Seq<(Fr, Term)>) -> Seq<FS> { Seq::new(ts.len(), |i: int| pst_key(t, ts[i].1.v@)) }
@@ -97,6 +98,68 @@ impl Term { #[verifier::external_body] pub fn new(v: Vec<(usize, usize)>) -> (r:
 #[verifier::external_body] pub fn vec_g2_clone(v: &Vec<G2Affine>) -> (r: Vec<G2Affine>) ensures r@ == v@ { unimplemented!() }
 #[verifier::external_body] pub fn g2p_clone(v: &G2Prepared) -> (r: G2Prepared) ensures r == *v { unimplemented!() }
 #[verifier::external_body] pub fn vec_g2p_clone(v: &Vec<G2Prepared>) -> (r: Vec<G2Prepared>) ensures r@ == v@ { unimplemented!() }
+// ---- open: polynomial / randomness arithmetic by evaluation, the quotient decomposition (proved in units/pst13_divide.rs), the proof ----
+pub struct Proof { pub w: Vec<G1Affine>, pub random_v: Option<Fr> }
+pub open spec fn umax(a: usize, b: usize) -> usize { if a >= b { a } else { b } }
+impl MvPoly {
+    // `p += (c, &q)` on SparsePolynomial: the sum as a polynomial function; every monomial of the result is a monomial of an operand   [assumed]
+    #[verifier::external_body] pub fn add_assign_scaled(&mut self, q: (Fr, &MvPoly))
+        ensures forall|x: Asg| #[trigger] mve(final(self).terms@, x) == f_add(mve(old(self).terms@, x), f_mul(q.0@, mve(q.1.terms@, x))),
+            final(self).num_vars == umax(old(self).num_vars, q.1.num_vars),
+            forall|lo: int, hi: int| #[trigger] terms_ok(old(self).terms@, lo, hi) && terms_ok(q.1.terms@, lo, hi) ==> terms_ok(final(self).terms@, lo, hi),
+            blinding_ok(old(self), q.1.num_vars as nat, usize::MAX as nat) && blinding_ok(q.1, q.1.num_vars as nat, usize::MAX as nat) ==> blinding_ok(final(self), q.1.num_vars as nat, usize::MAX as nat) { unimplemented!() }
+    #[verifier::external_body] pub fn add_assign_ref(&mut self, q: &MvPoly)       // `p += &q`
+        ensures forall|x: Asg| #[trigger] mve(final(self).terms@, x) == f_add(mve(old(self).terms@, x), mve(q.terms@, x)), final(self).num_vars == umax(old(self).num_vars, q.num_vars),
+            forall|lo: int, hi: int| #[trigger] terms_ok(old(self).terms@, lo, hi) && terms_ok(q.terms@, lo, hi) ==> terms_ok(final(self).terms@, lo, hi) { unimplemented!() }
+    #[verifier::external_body] pub fn evaluate(&self, point: &Vec<Fr>) -> (r: Fr) ensures r@ == mve(self.terms@, zf(point@)) { unimplemented!() }
+    #[verifier::external_body] pub fn is_zero(&self) -> (r: bool) ensures r ==> forall|x: Asg| #[trigger] mve(self.terms@, x) == f_zero() { unimplemented!() }
+}
+impl Randomness {
+//@fn id=pst13.Randomness.add_assign_scaled file=poly-commit/src/marlin/marlin_pst13_pc/data_structures.rs scope="impl<'a, E, P> AddAssign<\(E::ScalarField, &'a Randomness<E, P>\)> for Randomness<E, P>" name=add_assign props=C07,C01
+    pub fn add_assign(&mut self, q: (Fr, &Randomness))
+    ensures
+        forall|x: Asg| #[trigger] mve(final(self).blinding_polynomial.terms@, x) == f_add(mve(old(self).blinding_polynomial.terms@, x), f_mul(q.0@, mve(q.1.blinding_polynomial.terms@, x))),   // name=pst13.Randomness.add_assign_scaled.blinding_polynomials_add_linearly props=C07,C01
+        final(self).blinding_polynomial.num_vars == umax(old(self).blinding_polynomial.num_vars, q.1.blinding_polynomial.num_vars),
+        forall|lo: int, hi: int| #[trigger] terms_ok(old(self).blinding_polynomial.terms@, lo, hi) && terms_ok(q.1.blinding_polynomial.terms@, lo, hi) ==> terms_ok(final(self).blinding_polynomial.terms@, lo, hi),
+//@body
+//@destructure q = (f, other)
+//@rw * /self\.blinding_polynomial \+= \((.*)\);/ => self.blinding_polynomial.add_assign_scaled((\1));
+//@rw * /self\.blinding_polynomial \+= &(.*);/ => self.blinding_polynomial.add_assign_ref(&\1);
+//@end
+//@fn id=pst13.Randomness.is_hiding file=poly-commit/src/marlin/marlin_pst13_pc/data_structures.rs scope="impl<E, P> Randomness<E, P>" name=is_hiding props=C07
+    pub fn is_hiding(&self) -> (r: bool)
+    ensures
+        !r ==> forall|x: Asg| #[trigger] mve(self.blinding_polynomial.terms@, x) == f_zero(),   // name=pst13.Randomness.is_hiding.false_only_for_the_zero_blinding_polynomial props=C07
+//@body
+//@end
+}
+// `ck.powers_of_gamma_g[v][d - 1]`: the gamma power of variable v and degree d (out of range, or d = 0: abort)
+#[verifier::external_body] pub fn gamma_at(ck: &CommitterKey, v: usize, d: usize) -> (r: G1Affine)
+    ensures v < ck.powers_of_gamma_g@.len(), 1 <= d <= ck.powers_of_gamma_g@[v as int]@.len(), r == ck.powers_of_gamma_g@[v as int]@[d - 1] { unimplemented!() }
+#[verifier::external_body] pub fn vec_at<T>(v: &Vec<T>, i: usize) -> (r: &T) ensures i < v@.len(), *r == v@[i as int] { unimplemented!() }      // v[i] on prover-side data: out of range aborts
+pub proof fn lemma_terms_ok_mono(ts: Seq<(Fr, Term)>, lo: int, hi: int, hi2: int)
+    requires terms_ok(ts, lo, hi), hi <= hi2
+    ensures terms_ok(ts, lo, hi2)
+{ assert forall|k: int| 0 <= k < ts.len() implies term_wf((#[trigger] ts[k]).1.v@) && term_vars_in(ts[k].1.v@, lo, hi2) by { assert(term_vars_in(ts[k].1.v@, lo, hi)); } }
+// what the proof holds for witness i: the term-indexed commitment of the i-th quotient, plus (hiding) the gamma-commitment of the i-th quotient of the blinding polynomial
+pub open spec fn wcomm(ck: &CommitterKey, w: &MvPoly) -> FS { dot(keys_of(&ck.powers_of_g, w.terms@), coeffs_of(w.terms@), w.terms@.len()) }
+pub open spec fn hcomm(ck: &CommitterKey, w: &MvPoly) -> FS { dot(gkeys_of(ck, w.terms@), coeffs_of(w.terms@), w.terms@.len()) }
+pub open spec fn gkey_at_ok(ck: &CommitterKey, m: Seq<(usize, usize)>) -> bool { m.len() == 0 || (m[0].0 < ck.powers_of_gamma_g@.len() && 1 <= tdeg(m, m.len()) <= ck.powers_of_gamma_g@[m[0].0 as int]@.len()) }
+// challenge-weighted sums of the polynomials / blinding polynomials: sum_j xi_j p_j with xi_j the j-th squeeze
+pub open spec fn pacc(ps: Seq<&LabeledMv>, s: SS, k: nat, x: Asg) -> FS decreases k { if k == 0 { f_zero() } else { f_add(pacc(ps, s, (k - 1) as nat, x), f_mul(sp_sq_fe(sp_iter(s, (k - 1) as nat)), mve(ps[k - 1].polynomial.terms@, x))) } }
+pub open spec fn racc(sts: Seq<&Randomness>, s: SS, k: nat, x: Asg) -> FS decreases k { if k == 0 { f_zero() } else { f_add(racc(sts, s, (k - 1) as nat, x), f_mul(sp_sq_fe(sp_iter(s, (k - 1) as nat)), mve(sts[k - 1].blinding_polynomial.terms@, x))) } }
+pub open spec fn pst_open_post(ck: &CommitterKey, ps: Seq<&LabeledMv>, point: Seq<Fr>, sts: Seq<&Randomness>, s0: SS, pr: &Proof) -> bool {
+    let n = min(ps.len(), sts.len()); let hid = pr.random_v is Some;
+    exists|p: MvPoly, r: MvPoly, ws: Seq<MvPoly>, hws: Seq<MvPoly>| #![trigger qsum(ws, zf(point), zf(point), 0), qsum(hws, zf(point), zf(point), 0), mve(p.terms@, zf(point)), mve(r.terms@, zf(point))]
+        (forall|x: Asg| #[trigger] mve(p.terms@, x) == pacc(ps, s0, n, x)) && (forall|x: Asg| #[trigger] mve(r.terms@, x) == racc(sts, s0, n, x))
+        // the witnesses are an exact decomposition  p(X) - p(z) = sum_i (X_i - z_i) w_i(X)   (and the same for the blinding polynomial when hiding)
+        && ws.len() == p.num_vars && (forall|x: Asg| f_sub(#[trigger] mve(p.terms@, x), mve(p.terms@, zf(point))) == qsum(ws, x, zf(point), p.num_vars as nat))
+        && (hid ==> hws.len() == r.num_vars && (forall|x: Asg| f_sub(#[trigger] mve(r.terms@, x), mve(r.terms@, zf(point))) == qsum(hws, x, zf(point), r.num_vars as nat)))
+        && (!hid ==> forall|x: Asg| #[trigger] mve(r.terms@, x) == f_zero())
+        && pr.w@.len() == ws.len()
+        && (forall|i: int| 0 <= i < ws.len() ==> (#[trigger] pr.w@[i])@ == (if hid { f_add(wcomm(ck, &ws[i]), hcomm(ck, &hws[i])) } else { wcomm(ck, &ws[i]) }))
+        && (hid ==> pr.random_v->Some_0@ == mve(r.terms@, zf(point)))
+}
 pub struct MarlinPST13;
 impl MarlinPST13 {
 //@fn id=pst13.check_degrees_and_bounds file=poly-commit/src/marlin/marlin_pst13_pc/mod.rs scope="impl<E: Pairing, P: DenseMVPolynomial<E::ScalarField>> MarlinPST13<E, P>" name=check_degrees_and_bounds props=C17
@@ -215,5 +278,94 @@ impl MarlinPST13 {
 //@rw 1 /pp\.beta_h\.clone\(\)/ => vec_g2_clone(&pp.beta_h)
 //@rw 1 /pp\.prepared_h\.clone\(\)/ => g2p_clone(&pp.prepared_h)
 //@rw 1 /pp\.prepared_beta_h\.clone\(\)/ => vec_g2p_clone(&pp.prepared_beta_h)
+//@end
+//@stub from=pst13_divide.rs id=pst13.divide_at_point
+//@fn id=pst13.open file=poly-commit/src/marlin/marlin_pst13_pc/mod.rs scope="impl<E, P> PolynomialCommitment<E::ScalarField, P> for MarlinPST13<E, P>" name=open props=C01,C07,C11,C15,C17
+    #[verifier::loop_isolation(false)]
+    fn open<'a>(ck: &CommitterKey, labeled_polynomials: Vec<&'a LabeledMv>, _commitments: Vec<&'a LabeledCommitment<marlin_pc::Commitment>>, point: &Vec<Fr>, sponge: &mut Sponge, states: Vec<&'a Randomness>, _rng: Option<&mut Rng>) -> (res: Result<Proof, Error>)
+    requires
+        // well-formed inputs: monomials in normal form over the polynomials' own variables, blinding polynomials as Randomness::rand makes them, a point with a coordinate per variable
+        forall|i: int| 0 <= i < labeled_polynomials@.len() ==> terms_ok((#[trigger] labeled_polynomials@[i]).polynomial.terms@, 0, labeled_polynomials@[i].polynomial.num_vars as int) && labeled_polynomials@[i].polynomial.num_vars <= point@.len(),
+        forall|i: int| 0 <= i < states@.len() ==> terms_ok((#[trigger] states@[i]).blinding_polynomial.terms@, 0, states@[i].blinding_polynomial.num_vars as int) && states@[i].blinding_polynomial.num_vars <= point@.len(),
+    ensures
+        res is Ok ==> (forall|i: int| 0 <= i < min(labeled_polynomials@.len(), states@.len()) ==> (#[trigger] labeled_polynomials@[i]).polynomial.deg() <= ck.supported_degree),   // name=pst13.open.degree_beyond_key_refused props=C17
+        // one challenge per polynomial, as the verifier squeezes them
+        res is Ok ==> final(sponge).st@ == sp_iter(old(sponge).st@, min(labeled_polynomials@.len(), states@.len())),   // name=pst13.open.squeeze_schedule_matches_verifier props=C11
+        // the proof commits to the exact quotient decomposition of the challenge-weighted sum (plus, when hiding, that of the summed blinding polynomials, and its value at the point)
+        res is Ok ==> pst_open_post(ck, labeled_polynomials@, point@, states@, old(sponge).st@, &res->Ok_0),   // name=pst13.open.witness_commitments_of_the_exact_decomposition props=C01,C07,C15
+//@body
+//@rw 1 /let mut p = P::zero\(\);/ => let mut p = MvPoly::zero();
+//@rw 1 /Self::check_degrees_and_bounds\(ck\.supported_degree, &polynomial\)\?;/ => Self::check_degrees_and_bounds(ck.supported_degree, polynomial)?;
+//@rw 1 /p \+= \((.*)\);/ => p.add_assign_scaled((\1));
+//@rw 1 /r \+= \((.*)\);/ => r.add_assign((\1));
+//@rw 1 /(?s)let mut w = witnesses\s*\.iter\(\)\s*\.map\(\|w\| \{(.*?)\n\s*\}\)\s*\.collect::<Vec<_>>\(\);/ => let mut w: Vec<G1> = witnesses.iter().map(|w: &MvPoly| -> (o: G1) ensures o@ == wcomm(ck, w) {\1
+            }).collect();
+//@rw 1 /(?s)let powers_of_g = ark_std::cfg_iter!\(w\.terms\(\)\)\s*\.map\(\|\(_, term\)\| \*ck\.powers_of_g\.get\(term\)\.unwrap\(\)\)\s*\.collect::<Vec<_>>\(\);/ => let powers_of_g: Vec<G1Affine> = w.terms().iter().map(|ct: &(Fr, Term)| -> (g: G1Affine) ensures g@ == pst_key(&ck.powers_of_g, ct.1.v@) { let term = &ct.1; table_get(&ck.powers_of_g, term) }).collect();
+                proof { assert(g1views(powers_of_g@) =~= keys_of(&ck.powers_of_g, w.terms@)); }
+//@rw 1 /Self::convert_to_bigints\(&w\)/ => Self::convert_to_bigints(w)
+//@before /<E::G1 as VariableBaseMSM>::msm_bigint\(&powers_of_g, &witness_ints\)/
+                proof { assert(bviews(witness_ints@) == coeffs_of(w.terms@)); assert(powers_of_g@.len() == w.terms@.len() && witness_ints@.len() == w.terms@.len()); }
+//@rw 1 /(?s)ark_std::cfg_iter_mut!\(w\)\s*\.enumerate\(\)\s*\.for_each\(\|\(i, witness\)\| \{(.*?)\n\s*\}\);/ => let ghost w0 = w@;
+            let mut i: usize = 0;
+            while i < w.len()
+                invariant i <= w@.len(), w@.len() == w0.len(), w0.len() == witnesses@.len(),
+                    forall|q: int| 0 <= q < i ==> (#[trigger] w@[q])@ == f_add(w0[q]@, hcomm(ck, &hiding_witnesses@[q])),
+                    forall|q: int| i <= q < w@.len() ==> (#[trigger] w@[q]) == w0[q],
+                decreases w@.len() - i,
+            {
+                let ghost wprev = w@;
+                let mut witness: G1 = w[i];\1
+                proof {
+                    let hw = hiding_witnesses@[i as int];
+                    assert(g1views(powers_of_gamma_g@) == gkeys_of(ck, hw.terms@)); assert(bviews(hiding_witness_ints@) == coeffs_of(hw.terms@));
+                    assert(g1views(powers_of_gamma_g@).len() == powers_of_gamma_g@.len() && bviews(hiding_witness_ints@).len() == hiding_witness_ints@.len());
+                    assert(gkeys_of(ck, hw.terms@).len() == hw.terms@.len() && coeffs_of(hw.terms@).len() == hw.terms@.len());
+                    assert(witness@ == f_add(w0[i as int]@, hcomm(ck, &hw)));
+                }
+                w.set(i, witness);
+                ctr_inc(&mut i);
+            }
+//@rw 1 /let hiding_witness = &hiding_witnesses\[i\];/ => let hiding_witness: &MvPoly = vec_at(&hiding_witnesses, i);
+//@rw 1 /(?s)let powers_of_gamma_g = hiding_witness\s*\.terms\(\)\s*\.iter\(\)\s*\.map\(\|\(_, term\)\| \{(.*?)\n\s*\}\)\s*\.collect::<Vec<_>>\(\);/ => let powers_of_gamma_g: Vec<G1Affine> = hiding_witness.terms().iter().map(|ct: &(Fr, Term)| -> (g: G1Affine) ensures g@ == gamma_key(ck, ct.1.v@) { let term = &ct.1; proof { reveal_with_fuel(tdeg, 2); } \1 }).collect();
+                    proof { assert(g1views(powers_of_gamma_g@) =~= gkeys_of(ck, hiding_witness.terms@)); }
+//@rw 1 /ck\.powers_of_gamma_g\[vars\[0\]\]\[term\.degree\(\) - 1\]/ => gamma_at(ck, vars[0], term.degree())
+//@rw 1 /\*witness \+= &/ => witness += &
+//@rw 1 /(?s)Ok\(Proof \{\s*w: w\.into_iter\(\)\.map\(\|w\| w\.into_affine\(\)\)\.collect\(\),\s*random_v,\s*\}\)/ => let ghost wfin = w@;
+        let wa__: Vec<G1Affine> = w.into_iter().map(|wg: G1| -> (a: G1Affine) ensures a@ == wg@ { wg.into_affine() }).collect();
+        proof {
+            let hid = random_v is Some; let rp = r.blinding_polynomial;
+            let hws = if hid { hw_opt->Some_0@ } else { witnesses@ };
+            let pr = Proof { w: wa__, random_v };
+            assert(qsum(witnesses@, zf(pt), zf(pt), 0) == f_zero() && qsum(hws, zf(pt), zf(pt), 0) == f_zero());
+            assert(mve(p.terms@, zf(pt)) == pacc(ps0, s0, n, zf(pt)) && mve(rp.terms@, zf(pt)) == racc(sts0, s0, n, zf(pt)));
+            assert(pr.w@.len() == witnesses@.len());
+            assert forall|i: int| 0 <= i < witnesses@.len() implies (#[trigger] pr.w@[i])@ == (if hid { f_add(wcomm(ck, &witnesses@[i]), hcomm(ck, &hws[i])) } else { wcomm(ck, &witnesses@[i]) }) by {
+                assert(pr.w@[i]@ == wfin[i]@); assert(wc0[i]@ == wcomm(ck, &witnesses@[i]));
+            }
+            assert(pst_open_post(ck, ps0, pt, sts0, s0, &pr));
+        }
+        Ok(Proof { w: wa__, random_v })
+//@after start
+        let ghost ps0 = labeled_polynomials@; let ghost sts0 = states@; let ghost s0 = sponge.st@; let ghost n = min(ps0.len(), sts0.len()); let ghost pt = point@;
+//@loop 1 kw=for name=it
+            invariant it.index@ <= n, sponge.st@ == sp_iter(s0, it.index@ as nat),
+                forall|q: int| 0 <= q < it.index@ ==> (#[trigger] ps0[q]).polynomial.deg() <= ck.supported_degree,
+                forall|x: Asg| #[trigger] mve(p.terms@, x) == pacc(ps0, s0, it.index@ as nat, x),
+                forall|x: Asg| #[trigger] mve(r.blinding_polynomial.terms@, x) == racc(sts0, s0, it.index@ as nat, x),
+                terms_ok(p.terms@, 0, p.num_vars as int), p.num_vars <= pt.len(), terms_ok(r.blinding_polynomial.terms@, 0, r.blinding_polynomial.num_vars as int), r.blinding_polynomial.num_vars <= pt.len(),
+//@loopstart 1
+            let ghost k = it.index@; let ghost p0 = p; let ghost r0 = r;
+            proof { reveal_with_fuel(sp_iter, 2); }
+//@loopend 1
+            proof {
+                lemma_terms_ok_mono(p0.terms@, 0, p0.num_vars as int, p.num_vars as int); lemma_terms_ok_mono(ps0[k].polynomial.terms@, 0, ps0[k].polynomial.num_vars as int, p.num_vars as int);
+                lemma_terms_ok_mono(r0.blinding_polynomial.terms@, 0, r0.blinding_polynomial.num_vars as int, r.blinding_polynomial.num_vars as int);
+                lemma_terms_ok_mono(sts0[k].blinding_polynomial.terms@, 0, sts0[k].blinding_polynomial.num_vars as int, r.blinding_polynomial.num_vars as int);
+                assert forall|x: Asg| #[trigger] mve(p.terms@, x) == pacc(ps0, s0, (k + 1) as nat, x) by { assert(mve(p0.terms@, x) == pacc(ps0, s0, k as nat, x)); }
+                assert forall|x: Asg| #[trigger] mve(r.blinding_polynomial.terms@, x) == racc(sts0, s0, (k + 1) as nat, x) by { assert(mve(r0.blinding_polynomial.terms@, x) == racc(sts0, s0, k as nat, x)); }
+            }
+//@before /let random_v = if let Some\(hiding_witnesses\) = hiding_witnesses \{/
+        let ghost hw_opt = hiding_witnesses; let ghost wc0 = w@;
+        proof { assert forall|q: int| 0 <= q < witnesses@.len() implies (#[trigger] wc0[q])@ == wcomm(ck, &witnesses@[q]) by { } }
 //@end
 }
